@@ -72,8 +72,8 @@ Definition touches (S : nat) (m m' : mlm) (s a : nat) : Prop :=
 Lemma sync2_touches : forall e m s a, touches (eS e) m (ml_sync2 e m s a) s a.
 Proof.
   intros e m s a. unfold ml_sync2. destruct (NN e s a =? 0)%nat; [left; reflexivity|].
-  right. eexists; eexists; split; [|reflexivity].
-  intros row _. rewrite map_length, seq_length. reflexivity.
+  right. eexists; eexists. split. 2: reflexivity.
+  intros row _. cbv beta. rewrite map_length, seq_length. reflexivity.
 Qed.
 
 Lemma sync3_touches : forall e m s a s1, touches (eS e) m (ml_sync3 e m s a s1) s a.
@@ -81,8 +81,8 @@ Proof.
   intros e m s a s1. unfold ml_sync3.
   destruct (NN e s a mod resync_period =? 0)%nat; [apply sync2_touches|].
   destruct (NN e s a =? 1)%nat; right; eexists; eexists; (split; [|reflexivity]).
-  - intros row H. rewrite !upd_length. exact H.
-  - intros row H. rewrite map_length, upd_length. exact H.
+  - intros row H. cbv beta. rewrite !upd_length. exact H.
+  - intros row H. cbv beta. rewrite map_length, upd_length. exact H.
 Qed.
 
 Lemma touches_wf : forall S A m m' s a, touches S m m' s a -> ml_wf S A m -> ml_wf S A m'.
@@ -178,7 +178,7 @@ Proof.
     set (ntv := Qred (inj (V e s a s1) / inj (NN e s a - 1))).
     set (nvs := Qred (1 + Qred (ntv - q0))).
     assert (Hnvs : nvs == inj (NN e s a) / inj (NN e s a - 1)).
-    { unfold nvs, ntv. rewrite !Qred_correct, Q0. field. lra. }
+    { unfold nvs, ntv. rewrite !Qred_correct, Q0. rewrite Hp1 in *. field. lra. }
     assert (Hnz : ~ nvs == 0).
     { rewrite Hnvs. intros Hz. assert (0 < inj (NN e s a) / inj (NN e s a - 1)) by (apply Qlt_shift_div_l; lra). lra. }
     assert (Hb : Qeq_bool nvs 0 = false).
